@@ -225,7 +225,7 @@ Section Scaling.
   Lemma do_integrate_scal T nus ms gs hs th be T' nus' ms' gs' hs' th' be' fr nm g d phi :
     rel_integrate T nus ms gs hs th be T' nus' ms' gs' hs' th' be' ->
     phi_ok g d phi = true -> length nus = d ->
-    (forall s dt, 0 < dt -> nonsingular (shape_of g d) (repeat g d) (popsf_of nus ms gs hs be fr nm s) false dt) ->
+    (c = 1 \/ forall s dt, 0 < dt -> nonsingular (shape_of g d) (repeat g d) (popsf_of nus ms gs hs be fr nm s) false dt) ->
     do_integrate fuel tf T' nus' ms' gs' hs' th' be' fr nm (SPhi g d (vscal k phi))
     = sscale k (do_integrate fuel tf T nus ms gs hs th be fr nm (SPhi g d phi)).
   Proof.
@@ -242,8 +242,19 @@ Section Scaling.
     rewrite (tdep_ext fuel (shape_of g d) (repeat g d) _ (popsf' c popsf) th' (thetaf' c (fun t => k * th t)) tf false n0 (c * T) (vscal k phi)).
     2:{ apply (popsf_rel _ _ _ _ _ _ _ _ _ _ _ _ _ _ fr nm Hrel). }
     2:{ intro s. unfold thetaf'. replace s with (c * (s / c)) at 1 by (field; exact cne). apply Hth. }
-    change (@n0 R NumR) with 0. replace 0 with (c * 0) at 1 by ring.
-    rewrite (integrate_tdep_rescale_invariant c Hc (shape_of g d) (repeat g d) (grids_ok g d Hg) popsf (fun t => k * th t) Hwf false tf Htf Hns).
+    change (@n0 R NumR) with 0.
+    assert (Hresc : integrate_tdep fuel (shape_of g d) (repeat g d) (popsf' c popsf) (thetaf' c (fun t => k * th t)) tf false 0 (c * T) (vscal k phi)
+                    = integrate_tdep fuel (shape_of g d) (repeat g d) popsf (fun t => k * th t) tf false 0 T (vscal k phi)).
+    { destruct Hns as [Hc1|Hns].
+      - (* c = 1: nothing to rescale *)
+        rewrite Hc1, Rmult_1_l. apply tdep_ext.
+        + intro s. unfold popsf'. replace (s / 1) with s by field. rewrite <- (map_id (popsf s)) at 2. apply map_ext.
+          intros [nu ga h0 be0 ms0 fz nmu]. unfold rescale_pop. cbn [p_nu p_gamma p_h p_beta p_ms p_frozen p_nomut].
+          f_equal; [ring|field|]. rewrite <- (map_id ms0) at 2. apply map_ext. intro; field.
+        + intro s. unfold thetaf'. replace (s / 1) with s by field. field.
+      - replace 0 with (c * 0) at 1 by ring.
+        apply (integrate_tdep_rescale_invariant c Hc (shape_of g d) (repeat g d) (grids_ok g d Hg) popsf (fun t => k * th t) Hwf false tf Htf Hns). }
+    rewrite Hresc.
     rewrite (tdep_ext fuel (shape_of g d) (repeat g d) popsf popsf (fun t => k * th t) (fun s => k * th s + 0 * th s) tf false 0 T (vscal k phi)
                       (fun _ => eq_refl)) by (intro; ring).
     rewrite <- (lincomb_self k phi).
@@ -251,4 +262,391 @@ Section Scaling.
     destruct (integrate_tdep fuel (shape_of g d) (repeat g d) popsf th tf false 0 T phi); cbn [olincomb option_map]; [|reflexivity].
     rewrite lincomb_self. reflexivity.
   Qed.
+
+  (** ** whole programs *)
+  Variable ovf : R.
+  Variable quad : (R -> R) -> R -> R -> R.
+  Variable pts : nat.
+  Variable grid0 : list R.
+  Variable ns : list nat.
+  Notation St := (@state R).
+  Notation kindof := (@kind_of R NumR).
+  Notation csemp := (csem ovf quad fuel pts grid0 ns tf).
+  Notation csemi := (csem_instr ovf quad fuel pts grid0 ns tf).
+
+  (** every density of a run lives on the run's grid *)
+  Definition on_grid0 (s : St) : Prop :=
+    match s with SGrid g | SPhi g _ _ => g = grid0 | _ => True end.
+  (** no pivot of any line system of any sweep of this integration vanishes (hypothesis of the rescale theorem of C03);
+      not needed when the units do not change (c = 1) *)
+  Definition ns_ok (nus : list (R -> R)) (ms : list (list (R -> R))) (gs hs : list (R -> R)) (be : R -> R) (fr nm : list bool) : Prop :=
+    c = 1 \/ forall s dt, 0 < dt ->
+      nonsingular (shape_of grid0 (length nus)) (repeat grid0 (length nus)) (popsf_of nus ms gs hs be fr nm s) false dt.
+
+  Definition rel_instr (env env' : nat -> R) (i i' : instr) : Prop :=
+    match i, i' with
+    | IGrid, IGrid => True
+    | IPhi1D nu th g h be, IPhi1D nu' th' g' h' be' =>
+        ev0 env' nu' = c * ev0 env nu /\ ev0 env' th' = k * ev0 env th / c /\ ev0 env' g' = ev0 env g / c /\
+        ev0 env' h' = ev0 env h /\ ev0 env' be' = ev0 env be
+    | ISplit d p, ISplit d' p' => d = d' /\ p = p'
+    | IAdmixNew d fs, IAdmixNew d' fs' => d = d' /\ map (ev0 env') fs' = map (ev0 env) fs
+    | IPulse d sr t fs, IPulse d' sr' t' fs' => d = d' /\ sr = sr' /\ t = t' /\ map (ev0 env') fs' = map (ev0 env) fs
+    | IIntegrate T nus ms gs hs th be fr nm, IIntegrate T' nus' ms' gs' hs' th' be' fr' nm' =>
+        fr = fr' /\ nm = nm' /\ length nus' = length nus /\ map (@length _) ms' = map (@length _) ms /\
+        length gs' = length gs /\ length hs' = length hs /\
+        rel_integrate (ev0 env T) (map (evf env) nus) (map (map (evf env)) ms) (map (evf env) gs) (map (evf env) hs) (evf env th) (evf env be)
+                      (ev0 env' T') (map (evf env') nus') (map (map (evf env')) ms') (map (evf env') gs') (map (evf env') hs')
+                      (evf env' th') (evf env' be') /\
+        ns_ok (map (evf env) nus) (map (map (evf env)) ms) (map (evf env) gs) (map (evf env) hs) (evf env be) fr nm
+    | IRemove a, IRemove b => a = b
+    | IReorder a, IReorder b => a = b
+    | IFromPhi d, IFromPhi d' => d = d'
+    | IFromPhiInb d Fs pl, IFromPhiInb d' Fs' pl' =>
+        d = d' /\ map (ev0 env') Fs' = map (ev0 env) Fs /\ map (ev0 env') pl' = map (ev0 env) pl
+    | IMsCmd _, IMsCmd _ => True
+    | _, _ => False
+    end.
+  Fixpoint rel_prog (env env' : nat -> R) (p p' : prog) : Prop :=
+    match p, p' with
+    | Done, Done => True
+    | Step i r, Step i' r' => rel_instr env env' i i' /\ rel_prog env env' r r'
+    | IfGe a b p1 p2, IfGe a' b' p1' p2' =>
+        (ev0 env' b' <= ev0 env' a' <-> ev0 env b <= ev0 env a) /\ rel_prog env env' p1 p1' /\ rel_prog env env' p2 p2'
+    | _, _ => False
+    end.
+
+  Lemma on_grid0_mkphi g d phi : g = grid0 -> on_grid0 (mkphi g d phi).
+  Proof. intro. unfold mkphi. destruct (phi_ok g d phi); cbn; auto. Qed.
+  Lemma on_grid0_mkphi_opt g d r : g = grid0 -> on_grid0 (mkphi_opt g d r).
+  Proof. intro. destruct r; cbn [mkphi_opt]; [apply on_grid0_mkphi; assumption|exact I]. Qed.
+  Lemma on_grid0_mkfs r : on_grid0 (mkfs ns r).
+  Proof. destruct r; exact I. Qed.
+
+  Lemma on_grid0_instr i env s : on_grid0 s -> on_grid0 (csemi i env s).
+  Proof.
+    intro Hs. unfold csem_instr. destruct i; cbn [sem_instr].
+    - unfold c_grid. destruct (applicable _ _); [|exact Hs]. destruct s; cbn [do_grid]; try exact I.
+      destruct (Nat.eqb (length grid0) pts); [|exact I]. unfold mkgrid. destruct (grid_ok grid0); cbn; auto.
+    - unfold c_phi1d. destruct (applicable _ _); [|exact Hs]. destruct s; cbn [do_phi1d]; try exact I. apply on_grid0_mkphi, Hs.
+    - unfold c_split. destruct (applicable _ _); [|exact Hs]. destruct s; cbn [do_split]; try exact I.
+      destruct (Nat.eqb d 1); [apply on_grid0_mkphi, Hs|]. destruct (split_index d parent); [apply on_grid0_mkphi_opt, Hs|exact I].
+    - unfold c_admixnew. destruct (applicable _ _); [|exact Hs]. destruct s; cbn [do_admixnew]; try exact I. apply on_grid0_mkphi_opt, Hs.
+    - unfold c_pulse. destruct (applicable _ _); [|exact Hs]. destruct s; cbn [do_pulse]; try exact I.
+      destruct (pulse_index d srcs dst); [apply on_grid0_mkphi_opt, Hs|exact I].
+    - unfold c_integrate. destruct (applicable _ _); [|exact Hs]. destruct s; cbn [do_integrate]; try exact I.
+      destruct (nltb _ _); [exact I|apply on_grid0_mkphi_opt, Hs].
+    - unfold c_remove. destruct (applicable _ _); [|exact Hs]. destruct s; cbn [do_remove]; try exact I. apply on_grid0_mkphi, Hs.
+    - unfold c_reorder. destruct (applicable _ _); [|exact Hs]. destruct s; cbn [do_reorder]; try exact I. apply on_grid0_mkphi_opt, Hs.
+    - unfold c_fromphi. destruct (applicable _ _); [|exact Hs]. destruct s; cbn [do_fromphi]; try exact I. apply on_grid0_mkfs.
+    - unfold c_fromphi_inb. destruct (applicable _ _); [|exact Hs]. destruct s; cbn [do_fromphi_inb]; try exact I. apply on_grid0_mkfs.
+    - exact Hs.
+  Qed.
+
+  Lemma instr_scaling env env' i i' s : rel_instr env env' i i' -> on_grid0 s ->
+    csemi i' env' (sscale k s) = sscale k (csemi i env s).
+  Proof.
+    intros Hrel Hg0. unfold csem_instr.
+    destruct i, i'; cbn [rel_instr] in Hrel; try contradiction; cbn [sem_instr].
+    - (* grid *) unfold c_grid. rewrite kind_sscale. destruct (applicable IGrid (kindof s)) eqn:Ha; [|reflexivity].
+      destruct (kindof s) eqn:Ek; try (cbn [applicable] in Ha; discriminate).
+      + apply kind_KInit in Ek. subst s. cbn [sscale do_grid].
+        destruct (Nat.eqb (length grid0) pts); [|reflexivity]. unfold mkgrid. destruct (grid_ok grid0); reflexivity.
+      + apply kind_KErr in Ek. subst s. reflexivity.
+    - (* phi1d *) destruct Hrel as [E1 [E2 [E3 [E4 E5]]]]. unfold c_phi1d. rewrite kind_sscale.
+      destruct (applicable _ (kindof s)) eqn:Ha; [|reflexivity].
+      destruct (kindof s) eqn:Ek; try (cbn [applicable] in Ha; discriminate).
+      + apply kind_KGrid in Ek. destruct Ek as [g [-> _]]. cbn [sscale do_phi1d].
+        rewrite E1, E2, E3, E4, E5, (phi_1D_rescale ovf quad g c k _ _ _ _ _ cne). apply mkphi_vscal.
+      + apply kind_KErr in Ek. subst s. reflexivity.
+    - (* split *) destruct Hrel as [<- <-]. unfold c_split. rewrite kind_sscale.
+      destruct (applicable _ (kindof s)) eqn:Ha; [|reflexivity].
+      destruct (kindof s) eqn:Ek; try (cbn [applicable] in Ha; discriminate).
+      + apply kind_KPhi in Ek. destruct Ek as [g [phi [-> _]]]. cbn [sscale do_split].
+        destruct (Nat.eqb d 1); [rewrite phi_1D_to_2D_scal; apply mkphi_vscal|].
+        destruct (split_index d parent); [|reflexivity]. rewrite run_desc_scal. apply mkphi_opt_vscal.
+      + apply kind_KErr in Ek. subst s. reflexivity.
+    - (* admixnew *) destruct Hrel as [<- Efs]. unfold c_admixnew. rewrite kind_sscale, Efs.
+      replace (applicable (IAdmixNew d (dummy (map (ev0 env) fs0))) (kindof s)) with (applicable (IAdmixNew d (dummy (map (ev0 env) fs))) (kindof s))
+        by (unfold applicable; rewrite !dummy_length, <- Efs, !map_length; reflexivity).
+      destruct (applicable _ (kindof s)) eqn:Ha; [|reflexivity].
+      destruct (kindof s) eqn:Ek; try (cbn [applicable] in Ha; discriminate).
+      + apply kind_KPhi in Ek. destruct Ek as [g [phi [-> _]]]. cbn [sscale do_admixnew].
+        rewrite run_desc_scal. apply mkphi_opt_vscal.
+      + apply kind_KErr in Ek. subst s. reflexivity.
+    - (* pulse *) destruct Hrel as [<- [<- [<- Efs]]]. unfold c_pulse. rewrite kind_sscale, Efs.
+      destruct (applicable _ (kindof s)) eqn:Ha; [|reflexivity].
+      destruct (kindof s) eqn:Ek; try (cbn [applicable] in Ha; discriminate).
+      + apply kind_KPhi in Ek. destruct Ek as [g [phi [-> _]]]. cbn [sscale do_pulse].
+        destruct (pulse_index d srcs dst); [|reflexivity]. rewrite run_desc_scal. apply mkphi_opt_vscal.
+      + apply kind_KErr in Ek. subst s. reflexivity.
+    - (* integrate *)
+      destruct Hrel as [<- [<- [Ln [Lm [Lg [Lh [Hri Hns]]]]]]]. unfold c_integrate. rewrite kind_sscale.
+      replace (applicable (IIntegrate (Const 0) (dummy (map (evf env') nus0)) (map dummy (map (map (evf env')) ms0)) (dummy (map (evf env') gammas0))
+                                      (dummy (map (evf env') hs0)) (Const 0) (Const 0) frozen nomut) (kindof s))
+        with (applicable (IIntegrate (Const 0) (dummy (map (evf env) nus)) (map dummy (map (map (evf env)) ms)) (dummy (map (evf env) gammas))
+                                      (dummy (map (evf env) hs)) (Const 0) (Const 0) frozen nomut) (kindof s)).
+      2:{ unfold applicable. rewrite !dummy_length, !map_length_dummy, !map_length, Ln, Lg, Lh, !map_map.
+          replace (map (fun x => length (map (evf env') x)) ms0) with (map (@length _) ms0) by (apply map_ext; intro; symmetry; apply map_length).
+          replace (map (fun x => length (map (evf env) x)) ms) with (map (@length _) ms) by (apply map_ext; intro; symmetry; apply map_length).
+          rewrite Lm. reflexivity. }
+      destruct (applicable _ (kindof s)) eqn:Ha; [|reflexivity].
+      destruct (kindof s) eqn:Ek; try (cbn [applicable] in Ha; discriminate).
+      + apply kind_KPhi in Ek. destruct Ek as [g [phi [-> Hphi]]]. cbn [sscale]. cbn [on_grid0] in Hg0. subst g.
+        cbn [applicable] in Ha. unfold integrate_shape_ok in Ha.
+        repeat (apply andb_true_iff in Ha; let H' := fresh "H" in destruct Ha as [Ha H']).
+        apply Nat.eqb_eq in Ha. rewrite dummy_length in Ha.
+        apply (do_integrate_scal _ _ _ _ _ _ _ _ _ _ _ _ _ _ frozen nomut grid0 d phi Hri Hphi Ha).
+        rewrite <- Ha. exact Hns.
+      + apply kind_KErr in Ek. subst s. reflexivity.
+    - (* remove *) subst k1. unfold c_remove. rewrite kind_sscale.
+      destruct (applicable _ (kindof s)) eqn:Ha; [|reflexivity].
+      destruct (kindof s) eqn:Ek; try (cbn [applicable] in Ha; discriminate).
+      + apply kind_KPhi in Ek. destruct Ek as [g [phi [-> _]]]. cbn [sscale do_remove remove_pop snd].
+        rewrite marginal_np_scal. apply mkphi_vscal.
+      + apply kind_KErr in Ek. subst s. reflexivity.
+    - (* reorder *) subst perm0. unfold c_reorder. rewrite kind_sscale.
+      destruct (applicable _ (kindof s)) eqn:Ha; [|reflexivity].
+      destruct (kindof s) eqn:Ek; try (cbn [applicable] in Ha; discriminate).
+      + apply kind_KPhi in Ek. destruct Ek as [g [phi [-> _]]]. cbn [sscale do_reorder].
+        rewrite reorder_pops_scal. apply mkphi_opt_vscal.
+      + apply kind_KErr in Ek. subst s. reflexivity.
+    - (* fromphi *) subst d0. unfold c_fromphi. rewrite kind_sscale.
+      destruct (applicable _ (kindof s)) eqn:Ha; [|reflexivity].
+      destruct (kindof s) eqn:Ek; try (cbn [applicable] in Ha; discriminate).
+      + apply kind_KPhi in Ek. destruct Ek as [g [phi [-> Hphi]]]. cbn [sscale do_fromphi].
+        cbn [applicable] in Ha. apply Nat.eqb_eq in Ha. subst d0.
+        rewrite from_phi_scal by (apply (phi_ok_length g d phi Hphi)). apply mkfs_vscal.
+      + apply kind_KErr in Ek. subst s. reflexivity.
+    - (* fromphi_inb *) destruct Hrel as [<- [EF Epl]]. unfold c_fromphi_inb. rewrite kind_sscale, EF, Epl.
+      replace (applicable (IFromPhiInb d (dummy (map (ev0 env) Fs0)) (ones (map (ev0 env) ploidy0))) (kindof s))
+        with (applicable (IFromPhiInb d (dummy (map (ev0 env) Fs)) (ones (map (ev0 env) ploidy))) (kindof s)).
+      2:{ assert (L1 : length Fs0 = length Fs) by (rewrite <- (map_length (ev0 env') Fs0), EF, map_length; reflexivity).
+          assert (L2 : length ploidy0 = length ploidy) by (rewrite <- (map_length (ev0 env') ploidy0), Epl, map_length; reflexivity).
+          unfold applicable, ones. rewrite !dummy_length, !map_length, L1, L2.
+          replace (map nat_const (map (fun _ : R => Const 1) (map (ev0 env) ploidy0)))
+            with (map nat_const (map (fun _ : R => Const 1) (map (ev0 env) ploidy))); [reflexivity|].
+          rewrite !map_map. clear - L2. revert ploidy0 L2. induction ploidy as [|a l IH]; intros [|b l'] L; try discriminate; [reflexivity|].
+          cbn [map]. f_equal. apply IH. injection L as L. exact L. }
+      destruct (applicable _ (kindof s)) eqn:Ha; [|reflexivity].
+      destruct (kindof s) eqn:Ek; try (cbn [applicable] in Ha; discriminate).
+      + apply kind_KPhi in Ek. destruct Ek as [g [phi [-> Hphi]]]. cbn [sscale do_fromphi_inb].
+        cbn [applicable] in Ha. apply andb_true_iff in Ha. destruct Ha as [Ha _].
+        apply andb_true_iff in Ha. destruct Ha as [Ha _]. apply andb_true_iff in Ha. destruct Ha as [Ha _].
+        apply Nat.eqb_eq in Ha. subst d0.
+        rewrite from_phi_inbreeding_scal by (apply (phi_ok_length g d phi Hphi)). apply mkfs_vscal.
+      + apply kind_KErr in Ek. subst s. reflexivity.
+    - reflexivity.
+  Qed.
+
+  (** ** the scaling law of whole programs *)
+  Theorem csem_scaling : forall p p' env env' s, rel_prog env env' p p' -> on_grid0 s ->
+    csemp p' env' (sscale k s) = sscale k (csemp p env s).
+  Proof.
+    induction p as [|i r IH|a b p1 IH1 p2 IH2]; intros p' env env' s Hrel Hg0; destruct p'; cbn [rel_prog] in Hrel; try contradiction.
+    - reflexivity.
+    - destruct Hrel as [Hi Hr]. unfold csem. cbn [sem].
+      fold (csemi i0 env' (sscale k s)). fold (csemi i env s).
+      rewrite (instr_scaling env env' i i0 s Hi Hg0). apply IH; [exact Hr|apply on_grid0_instr; exact Hg0].
+    - destruct Hrel as [Hab [H1 H2]]. unfold csem in *. cbn [sem].
+      destruct (Rle_dec (ev0 env' b0) (ev0 env' a0)) as [L|L], (Rle_dec (ev0 env b) (ev0 env a)) as [L'|L'];
+        try (exfalso; tauto); [apply IH1|apply IH2]; assumption.
+  Qed.
 End Scaling.
+
+(** ** special cases *)
+Lemma vscal_1 (l : list R) : vscal 1 l = l.
+Proof. unfold vscal. rewrite <- (map_id l) at 2. apply map_ext. intro; ring. Qed.
+Lemma sscale_1 s : sscale 1 s = s.
+Proof. destruct s; cbn [sscale]; rewrite ?vscal_1; reflexivity. Qed.
+
+(** k = 1: a change of the reference size leaves every state of the run unchanged *)
+Theorem csem_rescale_invariant c (Hc : 0 < c) fuel tf (Htf : 0 < tf) ovf quad pts grid0 ns p p' env env' s :
+  rel_prog c 1 grid0 env env' p p' -> on_grid0 grid0 s ->
+  csem ovf quad fuel pts grid0 ns tf p' env' s = csem ovf quad fuel pts grid0 ns tf p env s.
+Proof.
+  intros Hrel Hg. rewrite <- (sscale_1 s) at 1. rewrite (csem_scaling c 1 Hc fuel tf Htf ovf quad pts grid0 ns p p' env env' s Hrel Hg).
+  apply sscale_1.
+Qed.
+
+(** c = 1: multiplying every theta0 of a program by a constant multiplies the result; no side condition *)
+Definition scale_theta_instr (q : Q) (i : instr) : instr :=
+  match i with
+  | IPhi1D nu th g h be => IPhi1D nu (Mul (Const q) th) g h be
+  | IIntegrate T nus ms gs hs th be fr nm => IIntegrate T nus ms gs hs (Mul (Const q) th) be fr nm
+  | _ => i
+  end.
+Fixpoint scale_theta (q : Q) (p : prog) : prog :=
+  match p with
+  | Done => Done
+  | Step i r => Step (scale_theta_instr q i) (scale_theta q r)
+  | IfGe a b p1 p2 => IfGe a b (scale_theta q p1) (scale_theta q p2)
+  end.
+
+Lemma map_Rmult_1 (l : list R) : map (Rmult 1) l = l.
+Proof. rewrite <- (map_id l) at 2. apply map_ext. intro; ring. Qed.
+Lemma map_div_1 (l : list R) : map (fun m => m / 1) l = l.
+Proof. rewrite <- (map_id l) at 2. apply map_ext. intro; field. Qed.
+Lemma map_map_div_1 (L : list (list R)) : map (map (fun m => m / 1)) L = L.
+Proof. rewrite <- (map_id L) at 2. apply map_ext. intro; apply map_div_1. Qed.
+Lemma rel_scale_theta q grid0 env : forall p, rel_prog 1 (Q2R q) grid0 env env p (scale_theta q p).
+Proof.
+  induction p as [|i r IH|a b p1 IH1 p2 IH2]; cbn [scale_theta rel_prog]; auto.
+  - split; [|exact IH]. destruct i; cbn [scale_theta_instr rel_instr]; auto.
+    + repeat split; unfold ev0; cbn [eval]; field.
+    + repeat split; try reflexivity.
+      * ring.
+      * intro t. rewrite Rmult_1_l, map_Rmult_1. reflexivity.
+      * intro t. rewrite Rmult_1_l, map_map_div_1. reflexivity.
+      * intro t. rewrite Rmult_1_l, map_div_1. reflexivity.
+      * intro t. rewrite Rmult_1_l. reflexivity.
+      * intro t. rewrite Rmult_1_l. unfold evf. cbn [eval]. field.
+      * intro t. rewrite Rmult_1_l. reflexivity.
+      * left. reflexivity.
+  - split; [tauto|]. split; assumption.
+Qed.
+
+Theorem csem_theta0_linear q fuel tf (Htf : 0 < tf) ovf quad pts grid0 ns p env s : on_grid0 grid0 s ->
+  csem ovf quad fuel pts grid0 ns tf (scale_theta q p) env (sscale (Q2R q) s)
+  = sscale (Q2R q) (csem ovf quad fuel pts grid0 ns tf p env s).
+Proof. intro Hg. apply (csem_scaling 1 (Q2R q) Rlt_0_1 fuel tf Htf ovf quad pts grid0 ns p _ env env s (rel_scale_theta q grid0 env p) Hg). Qed.
+
+Lemma prog_ok_scale_theta q : forall p k0, prog_ok (scale_theta q p) k0 = prog_ok p k0.
+Proof.
+  induction p as [|i r IH|a b p1 IH1 p2 IH2]; intro k0; cbn [scale_theta prog_ok]; [reflexivity| |rewrite IH1, IH2; reflexivity].
+  replace (applicable (scale_theta_instr q i) k0) with (applicable i k0) by (destruct i; reflexivity).
+  replace (next_kind (scale_theta_instr q i) k0) with (next_kind i k0) by (destruct i; reflexivity).
+  rewrite IH. reflexivity.
+Qed.
+
+(** ... of the spectrum returned by the strict interpreter *)
+Theorem run_prog_theta0_linear q fuel tf (Htf : 0 < tf) ovf quad pts grid0 ns p params : prog_ok p KInit = true ->
+  @run_prog R NumR ovf quad fuel pts grid0 ns tf (scale_theta q p) params
+  = option_map (vscal (Q2R q)) (@run_prog R NumR ovf quad fuel pts grid0 ns tf p params).
+Proof.
+  intro Hok. rewrite !run_prog_is_sem by (rewrite ?prog_ok_scale_theta; exact Hok).
+  change (@SInit R) with (sscale (Q2R q) (@SInit R)) at 1.
+  rewrite (csem_theta0_linear q fuel tf Htf ovf quad pts grid0 ns p _ SInit I).
+  destruct (csem ovf quad fuel pts grid0 ns tf p (env_of_list params) SInit); reflexivity.
+Qed.
+
+(** ** a change of the reference size, as a program transformation: every size and time argument of every instruction is
+    multiplied by q, every migration rate, selection coefficient and theta0 divided by q, time-dependent arguments are
+    read at t / q.  The transformed program computes the same states (hypothesis: no vanishing pivot in the sweeps of
+    the integrations, as in the rescale theorem of C03). *)
+Fixpoint tsubst (r : expr) (e : expr) : expr :=
+  match e with
+  | TVar => r
+  | Var _ | Const _ => e
+  | Add a b => Add (tsubst r a) (tsubst r b)
+  | Sub a b => Sub (tsubst r a) (tsubst r b)
+  | Mul a b => Mul (tsubst r a) (tsubst r b)
+  | Div a b => Div (tsubst r a) (tsubst r b)
+  | Neg a => Neg (tsubst r a)
+  | Exp a => Exp (tsubst r a)
+  | Log a => Log (tsubst r a)
+  | Pow a b => Pow (tsubst r a) (tsubst r b)
+  end.
+Lemma tsubst_eval r : forall e env t, eval (tsubst r e) env t = eval e env (eval r env t).
+Proof. induction e; intros env t; cbn [tsubst eval]; rewrite ?IHe, ?IHe1, ?IHe2; reflexivity. Qed.
+
+Section RescaleProg.
+  Variable q : Q.
+  Definition told : expr := Div TVar (Const q).                       (* the old time t / q *)
+  Definition size_arg (e : expr) : expr := Mul (Const q) (tsubst told e).
+  Definition rate_arg (e : expr) : expr := Div (tsubst told e) (Const q).
+  Definition free_arg (e : expr) : expr := tsubst told e.
+  Definition rescale_instr (i : instr) : instr :=
+    match i with
+    | IPhi1D nu th g h be => IPhi1D (Mul (Const q) nu) (Div th (Const q)) (Div g (Const q)) h be
+    | IIntegrate T nus ms gs hs th be fr nm =>
+        IIntegrate (Mul (Const q) T) (map size_arg nus) (map (map rate_arg) ms) (map rate_arg gs) (map free_arg hs)
+                   (rate_arg th) (free_arg be) fr nm
+    | _ => i
+    end.
+  Fixpoint rescale_prog (p : prog) : prog :=
+    match p with
+    | Done => Done
+    | Step i r => Step (rescale_instr i) (rescale_prog r)
+    | IfGe a b p1 p2 => IfGe a b (rescale_prog p1) (rescale_prog p2)
+    end.
+
+  Hypothesis Hq : 0 < Q2R q.
+  Let c := Q2R q.
+  Let cne : c <> 0. Proof. unfold c. lra. Qed.
+  Variable grid0 : list R.
+
+  (** the side condition of the rescale theorem, for every integration of the program *)
+  Definition ns_instr (env : nat -> R) (i : instr) : Prop :=
+    match i with
+    | IIntegrate T nus ms gs hs th be fr nm =>
+        forall s dt, 0 < dt ->
+          nonsingular (shape_of grid0 (length nus)) (repeat grid0 (length nus))
+                      (popsf_of (map (evf env) nus) (map (map (evf env)) ms) (map (evf env) gs) (map (evf env) hs) (evf env be) fr nm s) false dt
+    | _ => True
+    end.
+  Fixpoint ns_prog (env : nat -> R) (p : prog) : Prop :=
+    match p with
+    | Done => True
+    | Step i r => ns_instr env i /\ ns_prog env r
+    | IfGe _ _ p1 p2 => ns_prog env p1 /\ ns_prog env p2
+    end.
+
+  Lemma old_time env t : eval told env (c * t) = t.
+  Proof. unfold told, c. cbn [eval]. field. exact cne. Qed.
+
+  Lemma rel_rescale_prog env : forall p, ns_prog env p -> rel_prog c 1 grid0 env env p (rescale_prog p).
+  Proof.
+    induction p as [|i r IH|a b p1 IH1 p2 IH2]; cbn [rescale_prog rel_prog ns_prog]; auto.
+    - intros [Hi Hr]. split; [|apply IH; exact Hr]. destruct i; cbn [rescale_instr rel_instr]; auto.
+      + repeat split; unfold ev0; cbn [eval]; fold c; field; exact cne.
+      + cbn [ns_instr] in Hi.
+        split; [reflexivity|]. split; [reflexivity|]. split; [rewrite !map_length; reflexivity|].
+        split; [rewrite !map_map; apply map_ext; intro; rewrite map_length; reflexivity|].
+        split; [rewrite !map_length; reflexivity|]. split; [rewrite !map_length; reflexivity|].
+        split; [|right; rewrite map_length; exact Hi].
+        unfold rel_integrate.
+        split; [unfold ev0; cbn [eval]; reflexivity|].
+        split.
+        { intro t. unfold at_t. rewrite !map_map. apply map_ext. intro e. unfold evf, size_arg. cbn [eval]. fold c.
+          rewrite tsubst_eval, old_time. reflexivity. }
+        split.
+        { intro t. rewrite !map_map. apply map_ext. intro row. unfold at_t. rewrite !map_map. apply map_ext. intro e.
+          unfold evf, rate_arg. cbn [eval]. fold c. rewrite tsubst_eval, old_time. reflexivity. }
+        split.
+        { intro t. unfold at_t. rewrite !map_map. apply map_ext. intro e. unfold evf, rate_arg. cbn [eval]. fold c.
+          rewrite tsubst_eval, old_time. reflexivity. }
+        split.
+        { intro t. unfold at_t. rewrite !map_map. apply map_ext. intro e. unfold evf, free_arg. rewrite tsubst_eval, old_time. reflexivity. }
+        split.
+        { intro t. unfold evf, rate_arg. cbn [eval]. fold c. rewrite tsubst_eval, old_time. field. exact cne. }
+        intro t. unfold evf, free_arg. rewrite tsubst_eval, old_time. reflexivity.
+    - intros [H1 H2]. split; [tauto|]. split; [apply IH1|apply IH2]; assumption.
+  Qed.
+
+  Theorem csem_rescale_prog fuel tf (Htf : 0 < tf) ovf quad pts ns p env s : ns_prog env p -> on_grid0 grid0 s ->
+    csem ovf quad fuel pts grid0 ns tf (rescale_prog p) env s = csem ovf quad fuel pts grid0 ns tf p env s.
+  Proof.
+    intros Hns Hg. apply (csem_rescale_invariant c Hq fuel tf Htf ovf quad pts grid0 ns p _ env env s (rel_rescale_prog env p Hns) Hg).
+  Qed.
+
+  Lemma prog_ok_rescale_prog : forall p k0, prog_ok (rescale_prog p) k0 = prog_ok p k0.
+  Proof.
+    induction p as [|i r IH|a b p1 IH1 p2 IH2]; intro k0; cbn [rescale_prog prog_ok]; [reflexivity| |rewrite IH1, IH2; reflexivity].
+    replace (applicable (rescale_instr i) k0) with (applicable i k0).
+    2:{ destruct i; try reflexivity. unfold rescale_instr, applicable. rewrite !map_length, !map_map.
+        replace (map (fun x => length (map rate_arg x)) ms) with (map (@length _) ms) by (apply map_ext; intro; symmetry; apply map_length).
+        reflexivity. }
+    replace (next_kind (rescale_instr i) k0) with (next_kind i k0) by (destruct i; reflexivity).
+    rewrite IH. reflexivity.
+  Qed.
+
+  (** the spectrum returned by the strict interpreter does not depend on the reference size *)
+  Theorem run_prog_rescale_invariant fuel tf (Htf : 0 < tf) ovf quad pts ns p params :
+    prog_ok p KInit = true -> ns_prog (env_of_list params) p ->
+    @run_prog R NumR ovf quad fuel pts grid0 ns tf (rescale_prog p) params = @run_prog R NumR ovf quad fuel pts grid0 ns tf p params.
+  Proof.
+    intros Hok Hns. rewrite !run_prog_is_sem by (rewrite ?prog_ok_rescale_prog; exact Hok).
+    rewrite (csem_rescale_prog fuel tf Htf ovf quad pts ns p _ SInit Hns I). reflexivity.
+  Qed.
+End RescaleProg.
